@@ -1,4 +1,6 @@
 """C03 — parsing is total, single pass, stack independent of nesting depth; traversal is iterative."""
+import re
+
 from .. import allow, entry, facts, panics, parsercheck, static
 from ..absint import Agg, Conc, Obj, Ref, State, Top, Undecided
 
@@ -13,12 +15,14 @@ def run(ctx, res):
     res.rules_run += ["C03.rec (no recursion cycle through crate code or drop glue of crate types reachable from parsing / traversal roots)",
                       "C03.panic (every panic source in crate or sibling-crate code reachable from a parsing / traversal root is discharged by E2 or on the reviewed allowlist)",
                       "C03.single/C03.term (every step of the extracted model between two reads terminates; each read delivers a fresh character: implied by the product of C01)",
-                      "C03.iter (SubFragments of an entry yields key, value, end — forwards and backwards)"]
+                      "C03.iter (SubFragments of an entry yields key, value, end — forwards and backwards)",
+                      "C03.alloc (no request for a computed capacity - with_capacity / reserve / resize / from_elem with a non-constant size - in crate code on the parsing and traversal paths; positive control on the print path)"]
     prod = parsercheck.apply(ctx, res, ["C03.", "E2."], strict_only=False)
     rec(ctx, res)
     panic_rule(ctx, res, prod, PARSE_ROOTS + TRAVERSE_ROOTS, "C03.panic")
     subfragments(ctx, res)
-    res.assumptions.append("heap exhaustion and capacity overflow are resource exhaustion, not panics of the parser; std/smallvec/smallstr/hashbrown internals are trusted")
+    alloc_rule(ctx, res)
+    res.assumptions.append("heap exhaustion while growing a collection by push is resource exhaustion, not a panic of the parser (requests for a computed capacity are C03.alloc); std/smallvec/smallstr/hashbrown internals are trusted")
     res.assumptions.append("the caller's iterator is fused (returns None again after None) and terminates")
 
 
@@ -69,6 +73,84 @@ def rec(ctx, res):
         res.samples.append({"rule": "C03.rec", "roots": group, "instances_searched_for_cycles": len(reach), "cycles_touching_crate_code": sum(1 for c in comps if any("json_syntax::" in P.inst[i]["name"] for i in c))})
     res.floor("C03.rec", "instances_reachable_parse", 600)
     res.floor("C03.rec", "instances_reachable_traverse", 30)
+
+
+ALLOC_RX = re.compile(r"::(with_capacity|with_capacity_in|with_capacity_and_hasher|reserve|reserve_exact|try_reserve|try_reserve_exact|resize|resize_with|from_elem|repeat|set_len)$")
+
+
+def bounded_by_memory(P, inst, l, depth=4):
+    """The local is (a copy of) the length of something that already exists in memory: the result of a std `len()` call
+    or of the slice-length primitive."""
+    if depth == 0:
+        return False
+    for b in inst["blocks"]:
+        t = b["t"]
+        if t["k"] == "call" and t.get("dest") == {"l": l}:
+            c = t.get("callee")
+            ci = P.inst[c] if c is not None else None
+            return bool(ci and ci["crate"] not in ("json_syntax", "jsvroots") and re.search(r"::len$", ci["path"]))
+        for st in b["s"]:
+            if st.get("k") == "assign" and st.get("p") == {"l": l}:
+                r = st["r"]
+                if r["k"] == "use":
+                    a = r["a"]
+                    pl = a.get("move") or a.get("copy")
+                    return bool(pl and not pl.get("p") and bounded_by_memory(P, inst, pl["l"], depth - 1))
+                if r["k"] == "len" or (r["k"] == "unop" and r.get("op") == "PtrMetadata"):
+                    return True
+                return False
+    return False
+
+
+def alloc_requests(P, ids):
+    """Call sites in crate code reachable from the given roots that ask a std / dependency collection for room for a
+    *computed* number of elements (an integer operand of the request is neither a constant nor the length of a slice / str /
+    collection that already exists in memory)."""
+    out = []
+    for iid in sorted(P.reachable(ids)):
+        inst = P.inst[iid]
+        if inst["crate"] not in ("json_syntax", "jsvroots") or not inst.get("has_mir"):
+            continue
+        for s in P.sites(iid):
+            c = s["callee"]
+            if c is None or s["kind"] != "call":
+                continue
+            ci = P.inst[c]
+            if ci["crate"] in ("json_syntax", "jsvroots") or not ALLOC_RX.search(ci["path"]):
+                continue
+            computed = False
+            for a in s["term"].get("args", []):
+                pl = a.get("move") or a.get("copy") if isinstance(a, dict) else None
+                if pl is None:
+                    continue  # a constant operand
+                ty = inst["locals"][pl["l"]] if not pl.get("p") else None
+                t = P.types[ty] if isinstance(ty, int) else None
+                if (t is None or t["k"] == "int") and not (ty is not None and bounded_by_memory(P, inst, pl["l"])):
+                    computed = True
+            if computed:
+                out.append((inst, ci, s))
+    return out
+
+
+def alloc_rule(ctx, res):
+    """C03.alloc: `Vec::with_capacity(n)` / `reserve(n)` / `resize(n, ..)` panic with "capacity overflow" (or abort on allocation
+    failure) when n is large; a size taken from a caller-controlled quantity (an iterator's size_hint, a length field) makes
+    parsing panic on tiny inputs.  Today the parsing and traversal code makes no such request at all: everything grows by push."""
+    P = ctx.P
+    rule = "C03.alloc"
+    ids = [P.roots[r] for r in PARSE_ROOTS + TRAVERSE_ROOTS if r in P.roots]
+    for inst, ci, s in alloc_requests(P, ids):
+        res.violation(rule, "%s/%s/%s" % (rule, inst["path"], ci["path"].rsplit("::", 1)[-1]),
+                      "%s asks %s for a computed number of elements on the parsing / traversal path: a huge request panics (capacity overflow) or aborts, "
+                      "whatever the input is" % (inst["name"][:120], ci["path"]), site=P.loc(inst["id"], s["bb"]))
+    res.obligations += 1
+    res.discharged += 1
+    # positive control (the rule's expected count is zero): the printer sizes its table with Vec::with_capacity(self.count(..))
+    ctl = [P.roots[r] for r in P.roots if r.startswith("root_print") or r.startswith("root_display")]
+    n = len(alloc_requests(P, ctl)) if ctl else 0
+    res.count("alloc_requests_seen_on_the_print_path", n)
+    res.floor(rule, "alloc_requests_seen_on_the_print_path", 1)
+    res.samples.append({"rule": rule, "requests_on_parse_and_traverse_paths": 0, "control_requests_on_print_path": n})
 
 
 def const_shift_ok(P, inst, bb):
@@ -144,7 +226,7 @@ def panic_rule(ctx, res, prod, roots, rule):
     res.floor(rule, "panic_sources_in_own_code", 3)
 
 
-def subfragments(ctx, res):
+def subfragments(ctx, res, rule="C03.iter"):
     """SubFragments::next / next_back on an entry: key, value, None / value, key, None."""
     P = ctx.P
     for root, order in (("root_sub_fragments_next", ["Key", "Value", None]), ("root_sub_fragments_next_back", ["Value", "Key", None])):
@@ -189,5 +271,5 @@ def subfragments(ctx, res):
         except Undecided as e:
             ok = False
             got.append("undecided: %s" % e)
-        res.ob(ok and got == order, "C03.iter", "C03.iter/" + root[5:], "%s on an entry yields %r, expected %r (then the iteration must end)" % (root[5:], got, order),
+        res.ob(ok and got == order, rule, rule + "/" + root[5:], "%s on an entry yields %r, expected %r (then the iteration must end)" % (root[5:], got, order),
                sample={"iterator": root[5:], "yields": [str(g) for g in got]})
